@@ -77,6 +77,27 @@ func runC12(c *Ctx) {
 				u.Kids = append(u.Kids, refcbor.NInt(gl), mon.Pick(r, refcbor.NInt(0), refcbor.NTstr("a/b"), refcbor.NNull()))
 				placement += fmt.Sprintf("%d:rawU,", gl)
 			}
+			if r.Intn(3) == 0 {
+				// hand-made bytes whose VALUES break a general header rule: nothing VerifyHashEnvelope
+				// would refuse may be produced from them
+				switch r.Intn(7) {
+				case 0:
+					u = refcbor.NMap(refcbor.NInt(4), refcbor.NInt(7)) // kid not a byte string
+				case 1:
+					u.Kids = append(u.Kids, refcbor.NInt(2), refcbor.NArr(refcbor.NInt(4))) // crit outside the protected bucket
+				case 2:
+					u.Kids = append(u.Kids, refcbor.NInt(5), refcbor.NBstr([]byte("iv")), refcbor.NInt(6), refcbor.NBstr([]byte("piv")))
+				case 3:
+					u.Kids = append(u.Kids, refcbor.NInt(mon.Pick(r, int64(7), int64(11))), mon.Pick(r, refcbor.NInt(1), refcbor.NArr(refcbor.NBstr(nil), refcbor.NMap()), refcbor.NArr()))
+				case 4:
+					u.Kids = append(u.Kids, refcbor.NInt(1), refcbor.NBstr([]byte("alg"))) // alg neither int nor text
+				case 5:
+					u.Kids = append(u.Kids, refcbor.NInt(mon.Pick(r, int64(5), int64(6))), refcbor.NTstr("iv")) // IV not a byte string
+				case 6:
+					u.Kids = append(u.Kids, refcbor.NInt(mon.Pick(r, int64(12), int64(9))), refcbor.NTstr("sig")) // abbreviated countersignature not a byte string
+				}
+				placement += "rawU-rule-breaking-value,"
+			}
 			h.RawUnprotected = refcbor.Encode(u)
 		case 1: // raw protected bytes (must be discarded by the producer)
 			h.RawProtected = refcbor.Encode(refcbor.NBstr(refcbor.Encode(refcbor.NMap(refcbor.NInt(1), refcbor.NInt(int64(kk.Alg)), refcbor.NInt(33), refcbor.NBstr([]byte("stale"))))))
@@ -112,7 +133,7 @@ func runC12(c *Ctx) {
 			p.HashValue = []byte{}
 		}
 		p.PreimageContentType = mon.Pick[any](r, nil, nil, "text/plain", uint64(50), uint8(1), int64(60), int(7), int64(-3), 2.5, []byte("x"), true)
-		p.Location = mon.Pick(r, "", "", "", "https://example.com/a", "loc", "https://bucket.example/50%off.bin", "s3://my bucket/key", "://", "file:///tmp/x", "urn:uuid:6e8bc430-9c3a-11d9-9669-0800200c9a66", "http://[::1]:80/%zz", "h\u00e9llo://\u65e5\u672c", " leading-space")
+		p.Location = mon.Pick(r, "", "", "", "https://example.com/a", "loc", "https://bucket.example/50%off.bin", "s3://my bucket/key", "://", "file:///tmp/x", "urn:uuid:6e8bc430-9c3a-11d9-9669-0800200c9a66", "http://[::1]:80/%zz", "h\u00e9llo://\u65e5\u672c", " leading-space", " ", "\t\n", "\u00a0", "\u2003\u2028", "\x00")
 		if i%11 == 3 && rawMode > 2 {
 			// the caller's protected map already holds exactly the governed values (and no alg)
 			h.Protected = cose.ProtectedHeader{}
